@@ -96,17 +96,19 @@ def main():
         if not ok_corr_build:
             notes.append("MODEL-BUILD-FAILED: " + extract_coq_error(corr_log))
         # ---- 3. proofs
-        props_target = "theories/Props/%s.vo" % spec["props_file"]
-        ok_proof, proof_log = (False, tr_out) if not ok_tr else common.coq_make([props_target])
-        thms = common.props_theorems(spec["props_file"])
+        props_files = spec.get("props_files", [spec["props_file"]])
+        props_target = " ".join("theories/Props/%s.vo" % f for f in props_files)
+        ok_proof, proof_log = (False, tr_out) if not ok_tr else common.coq_make(props_target.split())
+        thms = [t for f in props_files for t in common.props_theorems(f)]
         forb = common.forbidden_scan()
+        ok_audit, assumptions, audit_raw, audit_bad = (True, {}, "", []) if ok_proof else (False, {}, "", [])
         if ok_proof:
-            ok_audit, assumptions, audit_raw, audit_bad = common.print_assumptions(spec["props_file"])
-        else:
-            ok_audit, assumptions, audit_raw, audit_bad = False, {}, "", []
+            for f in props_files:
+                ok1, as1, raw1, bad1 = common.print_assumptions(f)
+                ok_audit = ok_audit and ok1; assumptions.update(as1); audit_raw += raw1; audit_bad = audit_bad + bad1
         coqchk_out = None
         if ok_proof and tier == "thorough" and spec.get("coqchk", True):
-            rc, coqchk_out = common.sh("timeout 1500 coqchk -silent -o -Q theories DS DS.Props.%s 2>&1 | tail -40" % spec["props_file"],
+            rc, coqchk_out = common.sh("timeout 1500 coqchk -silent -o -Q theories DS %s 2>&1 | tail -40" % " ".join("DS.Props.%s" % f for f in props_files),
                                        cwd=common.COQ, timeout=1600)
             if rc != 0:
                 ok_audit = False; audit_bad = audit_bad + ["coqchk failed"]
@@ -352,8 +354,10 @@ def setup():
         ready = [l.strip() for l in open(os.path.join(common.VERIF, "tools", "ready.txt")) if l.strip() and not l.startswith("#")]
         targets = []
         for pid in ready:
-            sp = registry.PROPS[pid]
-            targets.append("theories/Props/%s.vo" % sp["props_file"])
+            sp = registry.PROPS.get(pid)
+            if pid not in registry.PROPS:
+                continue
+            targets += ["theories/Props/%s.vo" % f for f in sp.get("props_files", [sp["props_file"]])]
             targets += ["theories/Corr/%s.vo" % load_family(l["family"]).CORR for l in sp["legs"]]
         ok, out = common.coq_make(sorted(set(targets)), timeout=7000)
         print(out[-3000:])
